@@ -163,6 +163,16 @@ func c04Overlay(r *rand.Rand, docs []map[string]any, app bool) Case {
 		Coq: "CMergeAll " + gBool(app) + " " + gList(nodes, gNode) + " " + gNode(got), Fail: fail, Nontrivial: len(docs) >= 2}
 }
 
+func wideDoc(n int, own string) map[string]any {
+	m := map[string]any{}
+	l := make([]any, n)
+	for i := 0; i < n; i++ {
+		m[fmt.Sprintf("svc%03d", i)] = map[string]any{own: i, "shared": own}
+		l[i] = map[string]any{own: i}
+	}
+	return map[string]any{"services": m, "items": l}
+}
+
 func replaceScalars(v any, with any) any {
 	switch x := v.(type) {
 	case map[string]any:
@@ -287,6 +297,7 @@ func init() {
 				c04Merge(nil, map[string]any{"l": []any{1, map[string]any{"x": 1}}}, map[string]any{"l": []any{nil, map[string]any{"y": 2}, 3}}, false),
 				c04Merge(nil, map[string]any{"l": []any{[]any{1}, 2}}, map[string]any{"l": []any{[]any{3}}}, true),
 				c04Merge(nil, map[string]any{"a": map[string]any{"b": 1}}, map[string]any{"a": []any{}}, false),
+				c04Merge(nil, wideDoc(150, "x"), wideDoc(150, "y"), false), // many mappings side by side, in a mapping and in a list
 			}
 		},
 		Gen: func(r *rand.Rand, tier string, idx int) Case {
